@@ -132,6 +132,16 @@ def gl2(prog, getfn):
         if not (mir.is_call(elem, "new") and elem[2] == (("param", 2), ("param", 3), ("param", 4))):
             errs.append("slot is not written with Some(Element::new(key, val, hash)) of the call's own "
                         "arguments: %s" % show(val))
+    if len(stores) == 1:
+        # every call that returns has written the slot: "the value most recently inserted" includes the case that the
+        # key is already there (an early return on `cur.key == key` keeps the older value)
+        from .ts import count_until
+        sb = stores[0][0]
+        grow_bbs = {cs.bb for cs in te.calls if cs.callee.name == "grow"}
+        r = count_until(ins, 0, lambda x: x == sb, lambda x: False, count_start=True)
+        if r is not None and r[0] < 1:
+            errs.append("a path through insert returns without writing the slot: the entry that is there (possibly an older "
+                        "value under the same key) stays")
     s_ins = slot_fn(ins, 4)
     s_get = slot_fn(getfn, 3)
     if not s_ins or not s_get:
@@ -617,6 +627,37 @@ def gl10(prog):
 
 
 
+def _returned_after(fn, te, t, bb):
+    """the alternatives of the return term t that can be returned on a path through block bb: joins keep the
+    alternatives whose source block is reachable from bb; choices are resolved by the facts known at bb"""
+    t = strip(t)
+    if not isinstance(t, tuple) or not t:
+        return [t]
+    if t[0] == "phi":
+        out = []
+        for pb, v in t[2]:
+            pbn = int(str(pb).replace("bb", "")) if not isinstance(pb, int) else pb
+            if pbn == bb or fn.cfg.can_reach(bb, pbn):
+                out += _returned_after(fn, te, v, bb)
+        return out
+    if t[0] == "gamma":
+        known = {repr(strip(c)): v for c, v, _, _ in te.facts_at(bb)}
+        kv = known.get(repr(strip(t[1])))
+        arms = list(t[2])
+        if kv is not None:
+            picked = [v for lab, v in arms if lab == kv or (isinstance(lab, tuple) and lab[0] == "not" and isinstance(kv, str) and kv not in lab[1])
+                      or (isinstance(kv, tuple) and kv[0] == "not" and isinstance(lab, str) and lab not in kv[1] and len(arms) == 2)]
+            if len(picked) == 1:
+                return _returned_after(fn, te, picked[0], bb)
+        # the choice is made after bb (its test is not a fact at bb) or cannot be resolved: every arm whose test
+        # block lies after bb, else all
+        out = []
+        for lab, v in arms:
+            out += _returned_after(fn, te, v, bb)
+        return out
+    return [t]
+
+
 def gl11(prog):
     """GL11  what a memoising function stores is what it returns: at every insertion into an operation cache (the BDD
     ite cache, the SDD ite and apply caches, the top-down component cache) the stored value is, term for term, one of
@@ -633,7 +674,6 @@ def gl11(prog):
         f = fns[0]
         te = f.terms
         rets = {repr(strip(a)) for a in leaves(te.ret)}
-        rets |= {repr(strip(x)) for a in leaves(te.ret) for x in [a]}
         calls = [cs for cs in te.calls if cs.callee.name == ins and len(cs.args) > vpos and
                  (ins != "insert" or "table" in show(cs.args[0]) or "HashMap" in cs.callee.key() or "IteTable" in cs.callee.key())]
         if not calls:
@@ -642,10 +682,16 @@ def gl11(prog):
         for cs in calls:
             v = strip(cs.args[vpos])
             alts = {repr(strip(a)) for a in leaves(v)}
-            if repr(v) in rets or (alts and alts <= rets):
+            if not (repr(v) in rets or (alts and alts <= rets)):
+                errs.append("line %d: the cache is given %s, which is not a value the function returns (%s)"
+                            % (cs.line, show(v)[:70], sorted(show(strip(a))[:40] for a in leaves(te.ret))[:3]))
                 continue
-            errs.append("line %d: the cache is given %s, which is not a value the function returns (%s)"
-                        % (cs.line, show(v)[:70], sorted(show(strip(a))[:40] for a in leaves(te.ret))[:3]))
+            # path-sensitive: what is returned on the paths that pass through this insertion
+            after = _returned_after(f, te, te.ret, cs.bb)
+            other = [a for a in after if repr(strip(a)) != repr(v) and repr(strip(a)) not in alts]
+            if after and other:
+                errs.append("line %d: after storing %s the function goes on to return %s: the stored value is not the "
+                            "value of the call it is stored for" % (cs.line, show(v)[:50], show(strip(other[0]))[:70]))
         out.append(inst("GL", "%s:GL11:stored=returned" % f.npath, VIOLATION if errs else OK, f, calls[0].line,
                         "; ".join(errs) if errs else "the stored value is the returned value"))
     return out
